@@ -20,7 +20,7 @@ def c14_check(op, x, sx, y, sy, n, ux, uy, left_kind, right_kind, ns):
         if op == "pow":
             if left_kind != "m": return bad
             r = A ** n
-            want_m, want_s = x ** n, abs(n * x ** (n - 1) * sx)
+            want_m, want_s = x ** n, (0 if n == 0 else abs(n * x ** (n - 1) * sx))
             plain = (x * UX) ** n
         else:
             f = {"add": lambda a, b: a + b, "sub": lambda a, b: a - b, "mul": lambda a, b: a * b, "div": lambda a, b: a / b}[op]
@@ -38,7 +38,7 @@ def c14_check(op, x, sx, y, sy, n, ux, uy, left_kind, right_kind, ns):
                 want_m, want_s = x / y, math.sqrt((sx / y) ** 2 + (x * sy / y ** 2) ** 2)
     except (ConversionNotFound, ZeroDivisionError, OverflowError):
         if op == "div" and y == 0: return bad
-        if op == "pow" and x == 0 and n <= 0: return bad
+        if op == "pow" and x == 0 and n < 0: return bad
         if op in ("add", "sub"): return bad
         import traceback
         bad.append("raised: " + traceback.format_exc().splitlines()[-1])
